@@ -96,9 +96,26 @@ func VerifH17() {
 	var sev, code, hint, detail, constraint, file, fn, line []byte
 	hasSrc := false
 	for i := 0; i < D; i++ {
-		switch vChoose(8) {
+		layer := vChoose(8)
+		if vParam("APPERR", 0) == 1 {
+			// (a smaller menu in this configuration: the application's own error
+			// type, a source location, a code)
+			layer = []int{8, 5, 1}[vChoose(3)]
+		}
+		switch layer {
+		case 8:
+			// the handler's own error type around what it has so far: it unwraps
+			// to its cause and calls any error of its own type "the same" (Is)
+			err = &vAppErr{cause: err}
+			msg = append([]byte("app: "), msg...)
+			vReach("application-error-layer")
 		case 0:
 		case 1:
+			if vParam("APPERR", 0) == 1 {
+				code = []byte(codes.Syntax)
+				err = psqlerr.WithCode(err, codes.Syntax)
+				break
+			}
 			// an arbitrary code, or one of the package's own constants (the
 			// uncategorised default and an XX-class code are special-cased by the code)
 			switch vChoose(4) {
@@ -130,6 +147,13 @@ func VerifH17() {
 			detail = vSymTextL(2, true)
 			err = psqlerr.WithDetail(err, string(detail))
 		case 5:
+			if vParam("APPERR", 0) == 1 {
+				// (concrete payloads in this configuration)
+				file, fn, line = []byte("f.go"), []byte("fn"), []byte("7")
+				hasSrc = true
+				err = psqlerr.WithSource(err, "f.go", 7, "fn")
+				break
+			}
 			file = vSymTextL(1, true) // a source location may name no file or no function:
 			fn = vSymTextL(1, true)   // it was set all the same, so F, L and R are all sent
 			nd := 1 + vChoose(3)
@@ -232,6 +256,17 @@ func VerifH17() {
 	if len(constraint) > 0 {
 		vReach("constraint")
 	}
+}
+
+// vAppErr is an application's own error type: it wraps a cause, and its Is
+// method matches every error of the same type (errors of one "kind").
+type vAppErr struct{ cause error }
+
+func (e *vAppErr) Error() string { return "app: " + e.cause.Error() }
+func (e *vAppErr) Unwrap() error { return e.cause }
+func (e *vAppErr) Is(target error) bool {
+	_, same := target.(*vAppErr)
+	return same
 }
 
 // vUpstreamErr looks like the error type of a database driver (pgconn.PgError,
